@@ -18,6 +18,10 @@ R-C18-7: the anisotropic generator (std::set of doubles, window clamping, recurs
          in exact arithmetic with an ordered-set model (setdom.py): for refinement radii below, inside, at and beyond
          [R0, Rmax] and factors 1..nr_exp-1 the radii run from exactly R0 to exactly Rmax, increase strictly, nr is odd,
          fine nodes are midpoints, one more divideBy2 nests; no out-of-range access; inadmissible factors throw.
+R-C18-8: what the validation accepts: checkParameters interpreted in exact arithmetic on every strictly increasing angle
+         vector of the lattice {k*2pi/M} from 0 to 2pi (M = 8: 128 vectors; 12: 2048) - it must throw exactly when the
+         vector is not antipodally closed - and on malformed radii/angles of each kind.  (This is also the hypothesis the
+         table analyses C03-C09 take for granted: every angle has an antipodal partner.)
 R-C18-6: the text round trip.  writeToFile and the file constructor are interpreted over abstract streams (iodom.py):
          the reader must deliver the written sequence — same length, same order, value i = rd(written value i, notation,
          precision) — into the members the writer took them from, nr_/ntheta_ re-derived, validation before derived data.
@@ -185,6 +189,79 @@ def anisotropic_grid(ck, prog, tier):
                 ck.violation("R-C18-7", "anisotropic:%s" % "-".join(probs[0].split(" ")[:3]).replace(":", ""), site, "%s: %s" % (key, "; ".join(probs[:3])))
             else:
                 ck.ok("R-C18-7", key, sample={"parameters": key, "nr": nr, "q (first 6)": [str(q) for q in qs[:6]]} if (nr_exp, af, p_) == (4, 2, F(2, 3)) else None)
+
+
+def validation_domain(ck, prog, tier):
+    """PolarGrid::checkParameters interpreted in exact arithmetic on EVERY strictly increasing angle vector of the lattice
+    {k*2pi/M} that starts at 0 and ends at 2pi (2^(M-1) vectors), and on malformed radii/angle vectors of each kind: it must
+    throw exactly when the grid is not admissible (not antipodally closed, not increasing, wrong end points, too short)"""
+    import itertools
+    from fractions import Fraction as F
+    from gmg import dag, forkdom, setdom
+    from gmg.symdom import SArr
+    ck.rule("R-C18-8", "checkParameters rejects exactly the inadmissible grids: exhaustive over the lattice angle vectors (antipodal closure), plus malformed radii / angles of every kind", floor=100)
+    fn = prog.fn("PolarGrid::checkParameters")
+    ck.analysed(fn)
+
+    class D(setdom.GenDomain, forkdom.ValueTests):
+        def call(self, e, fr):
+            r = self.value_call(e, fr)
+            if r is not NotImplemented:
+                return r
+            return setdom.GenDomain.call(self, e, fr)
+    PI = dag.const(F("3.14159265358979323846"))
+
+    def accepted(radii, angles):
+        dom = D(prog)
+        dom.init_value_tests(None)
+        it = Interp(prog, dom)
+        g = dom.new_object("PolarGrid", None, None)
+        ra = SArr("radii", len(radii), gen=lambda i: dag.const(F(radii[i])))
+        an = SArr("angles", len(angles), gen=lambda j: angles[j])
+        try:
+            it.call_function(fn, g, [Cell(ra), Cell(an)])
+        except ThrowEx as t:
+            return False, str(t.what)
+        if dom.oob:
+            raise ir.AnalysisBroken("checkParameters reads out of range: %s" % (dom.oob[0],))
+        return True, ""
+    M = 8 if tier == "quick" else 12
+    lat = lambda k: dag.mul(dag.const(F(2 * k, M)), PI)
+    good_r = (F(1, 2), F(1), F(3, 2))
+    site = ir.locstr(fn)
+    n = 0
+    for r_ in range(0, M):
+        for S_ in itertools.combinations(range(1, M), r_):
+            ks = [0] + list(S_) + [M]
+            n += 1
+            key = "angles {k*2pi/%d}: k=%s" % (M, ks)
+            ck.instance("R-C18-8", key, nontrivial=(n % 16 == 0))
+            kset = set(k % M for k in ks)
+            admissible = len(ks) >= 3 and all(((k + M // 2) % M) in kset for k in kset)
+            acc, why = accepted(good_r, [lat(k) for k in ks])
+            if acc != admissible:
+                ck.violation("R-C18-8", "checkParameters:%s" % ("accepts-unpaired-angles" if acc else "rejects-admissible-grid"), site,
+                             "%s: %s although the vector is %s%s" % (key, "accepted" if acc else "rejected (%s)" % why[:80], "antipodally closed" if admissible else "not antipodally closed: angle index %s has no partner" % sorted(k for k in kset if ((k + M // 2) % M) not in kset)[:1], ""))
+            else:
+                ck.ok("R-C18-8", key, sample={"angles": key, "verdict": "accepted" if acc else "rejected"} if n in (5, 40) else None)
+    g8 = [lat(k) for k in range(0, M + 1, M // 4)]
+    malformed = [
+        ("one radius", (F(1),), g8, False), ("non-positive radius", (F(0), F(1), F(2)), g8, False), ("negative radius", (F(-1), F(1), F(2)), g8, False),
+        ("radii not increasing", (F(1), F(3), F(2)), g8, False), ("repeated radius", (F(1), F(1), F(2)), g8, False), ("two radii", (F(1), F(2)), g8, True),
+        ("two angles only", good_r, [lat(0), lat(M)], False), ("first angle not 0", good_r, [lat(1)] + g8[1:], False),
+        ("last angle not 2pi", good_r, g8[:-1] + [lat(M - 1)], False), ("angles not increasing", good_r, [g8[0], g8[2], g8[1], g8[3], g8[4]], False),
+        ("repeated angle", good_r, [g8[0], g8[1], g8[1], g8[2], g8[3], g8[4]], False), ("negative angle", good_r, [dag.const(F(-1, 10))] + g8[1:], False),
+        ("well-formed", good_r, g8, True),
+    ]
+    for name, rad, ang, want in malformed:
+        key = "malformed input: %s" % name
+        ck.instance("R-C18-8", key)
+        acc, why = accepted(rad, ang)
+        if acc != want:
+            ck.violation("R-C18-8", "checkParameters:%s" % name.replace(" ", "-"), site, "%s is %s" % (key, "accepted" if acc else "rejected: %s" % why[:80]))
+        else:
+            ck.ok("R-C18-8", key)
+    ck.extra["lattice_angle_vectors"] = n
 
 
 def tolerance_of_equals(prog):
@@ -512,6 +589,8 @@ def main(tier):
     algebraic_grid(ck, prog, tier)
     # ---------------- R-C18-7: the anisotropic generator in exact arithmetic (ordered-set model)
     anisotropic_grid(ck, prog, tier)
+    # ---------------- R-C18-8: what checkParameters accepts
+    validation_domain(ck, prog, tier)
     # ---------------- R-C18-6: text round trip (writer and reader interpreted over abstract streams)
     round_trip(ck, tier)
     return ck.finish(
